@@ -860,7 +860,9 @@ def hue_formula(ctx):
     D = atom("MAX") - atom("MIN")
     chan = {}
     branches = []
-    for st in fn.body:
+    from ..flow import untuple
+
+    for st in untuple(fn.body):
         if isinstance(st, ast.Assign):
             try:
                 alg.assign(st)
